@@ -6,7 +6,7 @@ func extraRules() []*Rule {
 	out = append(out, rulesLocks()...)
 	out = append(out, rulesTables()...)
 	out = append(out, rulesStorage()...)
-	out = append(out, ruleLifecycle(), ruleHeartbeat(), ruleRecordOffset(), ruleFollowerLookup(), ruleOffsetOwner(), ruleSendLabel(), ruleVerifyRound(), ruleContactRefresh(), ruleHandlerDemote(), rulePrevoteToken(), ruleApplyWait(), ruleRestoreReconcile())
+	out = append(out, ruleLifecycle(), ruleHeartbeat(), ruleRecordOffset(), ruleFollowerLookup(), ruleOffsetOwner(), ruleSendLabel(), ruleVerifyRound(), ruleContactRefresh(), ruleHandlerDemote(), rulePrevoteToken(), ruleApplyWait(), ruleRestoreReconcile(), ruleOptionRange(), rulePartialReset())
 	return out
 }
 
@@ -56,6 +56,9 @@ func extraSpecs() []*PropertySpec {
 		{ID: "C15", Rules: []string{"APPLY-WAIT"}, Decided: "the apply loop never sleeps on its edge-triggered signal while committed entries are waiting (a lost wake-up would leave a follower of an idle cluster behind for ever)"},
 		{ID: "C14", Rules: []string{"RESTORE-RECONCILE"}, Decided: "a node started over a directory in which a received snapshot is visible but the log was not yet discarded brings the log in line with the snapshot, so that it accepts what follows the snapshot"},
 		{ID: "C15", Rules: []string{"RESTORE-RECONCILE"}, Decided: "the restarted node of C14's interrupted installation catches up (it would otherwise reject both the entries after the snapshot and the snapshot)"},
+		{ID: "C18", Rules: []string{"OPTION-RANGE"}, Decided: "invalid option values that would crash or cripple the node later (a log level beyond Fatal, an election timeout below one millisecond) are refused with an error at construction"},
+		{ID: "C10", Rules: []string{"PARTIAL-RESET"}, Decided: "a partially received snapshot never survives a term or leader change, so chunks of two snapshots are never mixed in one file across it"},
+		{ID: "C11", Rules: []string{"PARTIAL-RESET"}, Decided: "a partially received snapshot never survives a term or leader change"},
 		{ID: "C10", Rules: []string{"SEND-LABEL"}, Decided: "a snapshot request is labelled with the metadata of the very file whose bytes it carries, not with the node's boundary"},
 		{ID: "C11", Rules: []string{"SEND-LABEL"}, Decided: "a snapshot request is labelled with the metadata of the very file whose bytes it carries"},
 		{ID: "C11", Rules: []string{"COMPACT-KEEP"}, Decided: "Compact keeps the boundary entry as placeholder plus the suffix, DiscardEntries leaves exactly the placeholder, LastIndex/LastTerm/NextIndex read the last element"},
